@@ -71,6 +71,9 @@ func (f *indexRespFilter) validate() (err error) {
 
 // indexData is the data of a single item in the filtering-rule index response.
 type indexData struct {
+	// url is the URL of the list.  If it is nil, the item has a valid ID but
+	// otherwise invalid data, and the previous version of the list, if any,
+	// must be kept.
 	url *url.URL
 	id  filter.ID
 }
@@ -89,6 +92,8 @@ func (r *indexResp) toInternal(
 			err = fmt.Errorf("validating filter at index %d: %w", i, err)
 			errcoll.Collect(ctx, errColl, logger, "index response", err)
 
+			fls = appendInvalid(fls, rf)
+
 			continue
 		}
 
@@ -96,6 +101,8 @@ func (r *indexResp) toInternal(
 		if err != nil {
 			err = fmt.Errorf("validating url: %w", err)
 			errcoll.Collect(ctx, errColl, logger, "index response", err)
+
+			fls = appendInvalid(fls, rf)
 
 			continue
 		}
@@ -109,4 +116,23 @@ func (r *indexResp) toInternal(
 	}
 
 	return fls
+}
+
+// appendInvalid appends the data about an invalid index item to fls if the item
+// at least has a valid ID, so that the previous version of the list with that
+// ID could be kept.
+func appendInvalid(fls []*indexData, rf *indexRespFilter) (res []*indexData) {
+	if rf == nil {
+		return fls
+	}
+
+	id, err := filter.NewID(rf.Key)
+	if err != nil {
+		return fls
+	}
+
+	return append(fls, &indexData{
+		url: nil,
+		id:  id,
+	})
 }
